@@ -20,7 +20,7 @@ def check(ctx):
         r = model_check(ctx, "Flush.tla", c, workers=12, heap=8, timeout=2400)
         states += r["distinct"]; trans += r["generated"]
         mc.append(dict(cfg=c, distinct=r["distinct"], generated=r["generated"], wall_s=round(r["wall"], 1)))
-    for c in ["MC_Flush_asis.cfg", "MC_Flush_noprefix.cfg"]:   # non-vacuity
+    for c in ["MC_Flush_asis.cfg", "MC_Flush_noprefix.cfg", "MC_Flush_early.cfg"]:   # non-vacuity
         r = model_check(ctx, "Flush.tla", c, expect_ok=False, workers=4, heap=4, timeout=600)
         mc.append(dict(cfg=c, expected="counterexample", found=r["error"]))
     drv = build_harness(ctx)
